@@ -18,6 +18,7 @@ import (
 	"runtime"
 	"strings"
 	"sync/atomic"
+	"time"
 
 	ucfg "github.com/elastic/go-ucfg"
 
@@ -157,6 +158,9 @@ type call struct {
 	hasIdx bool          // the entry point got an idx argument
 	idx    int           //
 	desc   func() string // renders the input (only on violation / verbose)
+	// msgInSig: the input class is coarse (random targets): the class of the
+	// panic message becomes part of the signature
+	msgInSig bool
 }
 
 func newMon(res *harness.R, verbose bool) *mon {
@@ -222,6 +226,13 @@ func (m *mon) do(c call, f func()) (st status) {
 			}
 			switch owner {
 			case "ucfg":
+				if c.class != "" && strings.Contains(msg, "nil pointer dereference") {
+					// which function touches the nil first is incidental
+					fn = "nil-dereference"
+				}
+				if c.msgInSig {
+					fn += ":" + msgClass(msg)
+				}
 				m.res.Violate(pre+"panic:"+fn, "%s panicked: %q in %s (%s); input: %s", c.entry, msg, fn, trace, c.desc())
 			case "decoder":
 				m.res.Violate("decoder-panic:"+fn, "%s: panic inside the decoder %s, no go-ucfg frame below it: %q (%s); input: %s", c.entry, fn, msg, trace, c.desc())
@@ -249,17 +260,42 @@ func (m *mon) finish() {
 	m.res.Ev("lexer_exits", atomic.LoadInt64(&m.exits))
 	m.res.Ev("grow_events", m.grows)
 	m.res.SetAdd("max_list_growth_log2", fmt.Sprint(log2(m.maxGrow)))
-	for i := 0; i < 4; i++ {
-		runtime.Gosched()
-	}
-	after := ucfgGoroutines()
-	for id := range after {
-		if !m.before[id] {
-			m.res.Violate("goroutine-leak", "goroutine with go-ucfg frames still alive after the case: %s", stackOf(id))
+	// A lexer goroutine that has emitted its exit event may still be winding
+	// down: give stragglers time (only a goroutine that stays is a leak).
+	for try := 0; ; try++ {
+		leaked := ""
+		for id, stack := range dumpGoroutines() {
+			if !m.before[id] {
+				leaked = stack
+				break
+			}
+		}
+		m.res.Ev("goroutine_dumps", 1)
+		if leaked == "" {
 			break
 		}
+		if try >= 60 {
+			m.res.Violate("goroutine-leak", "goroutine with go-ucfg frames still alive after the case (%d checks over >300ms): %s", try, leaked)
+			break
+		}
+		runtime.Gosched()
+		time.Sleep(time.Duration(try) * 200 * time.Microsecond)
 	}
-	m.res.Ev("goroutine_dumps", 1)
+}
+
+// msgClass reduces a panic message to its first words (up to the first type
+// name): "reflect.Set: value of type X is not assignable..." -> "reflect.set-value-of".
+func msgClass(msg string) string {
+	var words []string
+	for _, w := range strings.FieldsFunc(strings.ToLower(msg), func(r rune) bool {
+		return !(r >= 'a' && r <= 'z' || r == '.')
+	}) {
+		if w == "type" || len(words) >= 5 {
+			break
+		}
+		words = append(words, strings.Trim(w, "."))
+	}
+	return strings.Join(words, "-")
 }
 
 func log2(n int) int {
@@ -279,10 +315,6 @@ func ucfgGoroutines() map[string]bool {
 		out[id] = true
 	}
 	return out
-}
-
-func stackOf(id string) string {
-	return dumpGoroutines()[id]
 }
 
 func dumpGoroutines() map[string]string {
